@@ -392,7 +392,7 @@ Definition feasible (ly : layer) (dp : depth) : bool :=
   match ly, dp with
   | LHandshake, (DRecord | DParser | DDirect | DChecker | DRecOnly) => true
   | LRead, (DRecord | DParser | DDirect | DPreTry) => true   (* KeyUpdate/PHA replies: DRecOnly unreachable (app data / non-handshake sends re-raise) *)
-  | LWrite, DDirect => true
+  | LWrite, (DDirect | DPreTry) => true   (* DPreTry: the `if self.closed: raise TLSClosedConnectionError` test now precedes the try *)
   | LClose, (DRecord | DParser | DDirect) => true
   | _, _ => false
   end.
